@@ -133,6 +133,16 @@ def compare(rep, exe, invocations, label="grouping"):
                             rep.count("theorem-instances-checked:C02_end_to_end_thetaCovers")
                             if fl[3] != "1":
                                 rep.broken.append("instance of C02_end_to_end_thetaCovers false in the executable model: " + inv[:400])
+                    # C04_end_to_end_flat / _nested: executable hypotheses (the conclusion quantifies over worlds and queries: every accepted
+                    # input on which they hold is covered by the theorem — two blocks with a common instance make the expansion incoherent)
+                    for fl, nl in zip(v[6], v[9]):
+                        if len(nl) > 2:
+                            if nn_ and fl[0] == "1" and fl[1] == "1" and nl[2] == "1":
+                                rep.count("theorem-hypotheses-hold:C04_end_to_end_flat")
+                            elif v[2] == "1" and nl[0] == "1" and nl[1] == "1" and nl[2] == "1":
+                                rep.count("theorem-hypotheses-hold:C04_end_to_end_nested")
+                            else:
+                                rep.count("theorem-not-applicable:C04_end_to_end (group checks / keysOverHeaderB fail)")
                     fd_, fs_ = v[10] == "1", v[11] == "1"
             else:
                 flat = (v[0], v[2] == "1", v[3] == "1")
